@@ -245,7 +245,28 @@ package core
 //@   requires [index-ok] itemsOK(r.tree.tree) && disjointT(r.tree.tree)
 //@   at remove 1 mode index
 //@   ensures [unindexed] forall x *regionItem :: {inTree(r, x)} inTree(r, x) == (old(inTree(r, x)) && !(holdsKey(x.region, region.meta.StartKey) && x.region.meta.Id == region.meta.Id))
+//@   requires [served] @cache cacheOK(r) && cachedRegion(r, region.meta.Id) == region
+//@   ensures [keeps-cache-ok] @cache wfMapVals(r) && wfMapInTree(r) && wfTreeInMap(r) && itemsOK(r.tree.tree) && disjointT(r.tree.tree) && sepRI(r)
 //@   modifies r.regions[*], all regionTree.totalSize, ghost bthas
+
+// BasicCluster.RemoveRegion drops a served region (the caller passes the region currently cached under its id).
+//@ func (*BasicCluster).RemoveRegion
+//@   props C06
+//@   option event RemoveRegion
+//@   requires bc != nil && cacheOK(bc.Regions) && region != nil && region.meta != nil && cachedRegion(bc.Regions, region.meta.Id) == region
+//@   at RemoveRegion 1 mode cache
+//@   ensures [keeps-cache-ok] cacheOK(bc.Regions)
+//@   ensures [dropped] !in(bc.Regions.regions, region.meta.Id)
+//@   modifies bc.Regions.regions[*], all regionTree.totalSize, ghost bthas
+
+// CheckAndPutRegion (loading at start-up, region syncer on a follower: one caller at a time) puts only what passes
+// the pre-check; what does not pass is handed back and nothing changes.
+//@ func (*BasicCluster).CheckAndPutRegion
+//@   props C06
+//@   requires bc != nil && cacheOK(bc.Regions) && region != nil && allocated(region) && region.meta != nil && allocated(region.meta)
+//@   ensures [keeps-cache-ok] cacheOK(bc.Regions)
+//@   ensures [rejected-changes-nothing] count("PutRegion") == 0 ==> len(result) == 1 && result[0] == region
+//@   modifies all RegionsInfo.*, all regionTree.*, all regionItem.*, all map[uint64]*regionItem, all map[uint64]*regionTree, ghost bthas
 
 // The whole representation invariant of the region cache: id map and key index coupled, indexed regions well
 // formed and pairwise disjoint, per-store sub-indexes separate from the main index.
